@@ -874,7 +874,7 @@ impl DcpsDomainParticipant {
                                 .partition
                                 .name
                                 .iter()
-                                .any(|n| regex.is_match(n))
+                                .any(|n| !is_partition_expression(n) && regex.is_match(n))
                         });
 
                     let is_any_local_regex_matched_with_received_partition_qos = publisher
@@ -889,7 +889,7 @@ impl DcpsDomainParticipant {
                                 .partition
                                 .name
                                 .iter()
-                                .any(|n| regex.is_match(n))
+                                .any(|n| !is_partition_expression(n) && regex.is_match(n))
                         });
 
                     // An empty sequence of names is the default partition ""
@@ -1513,7 +1513,7 @@ impl DcpsDomainParticipant {
                                 .partition
                                 .name
                                 .iter()
-                                .any(|n| regex.is_match(n))
+                                .any(|n| !is_partition_expression(n) && regex.is_match(n))
                         });
 
                     let is_any_local_regex_matched_with_received_partition_qos = subscriber_qos
@@ -1527,7 +1527,7 @@ impl DcpsDomainParticipant {
                                 .partition
                                 .name
                                 .iter()
-                                .any(|n| regex.is_match(n))
+                                .any(|n| !is_partition_expression(n) && regex.is_match(n))
                         });
 
                     // An empty sequence of names is the default partition ""
@@ -3521,6 +3521,22 @@ fn get_discovered_writer_incompatible_qos_policy_list(
     }
 
     incompatible_qos_policy_list
+}
+
+/// Is this partition name an expression, i.e. does it contain an unescaped `*`, `?` or `[`? An expression of one side is
+/// matched against the NAMES of the other side only: two expressions are never matched against each other.
+fn is_partition_expression(name: &str) -> bool {
+    let mut chars = name.chars();
+    while let Some(c) = chars.next() {
+        match c {
+            '\\' => {
+                chars.next();
+            }
+            '*' | '?' | '[' => return true,
+            _ => (),
+        }
+    }
+    false
 }
 
 /// An empty sequence of partition names is the default partition "": is it matched by a side with these names,
